@@ -1002,3 +1002,142 @@ Proof.
   unfold wf_rows in *. rewrite Forall_forall in *. intros x Hx. apply Hl.
   eapply Permutation_in; [apply isort_rows_perm|exact Hx].
 Qed.
+
+(** * One sorter reused for several tables (Reset / SetColumns / PK between uses) *)
+
+(** what the outputs of a sorter depend on *)
+Definition ueq (a b : usorter) : Prop :=
+  s_chunks (u_s a) = s_chunks (u_s b) /\ s_current (u_s a) = s_current (u_s b) /\
+  s_size (u_s a) = s_size (u_s b) /\ u_ncols a = u_ncols b /\ u_pk a = u_pk b.
+
+Lemma uop_step_ueq sort rs a b o :
+  ueq a b ->
+  ueq (fst (uop_step sort rs a o)) (fst (uop_step sort rs b o)) /\
+  snd (uop_step sort rs a o) = snd (uop_step sort rs b o).
+Proof.
+  intros (E1 & E2 & E3 & E4 & E5). destruct a as [sa na pa], b as [sb nb pb].
+  cbn [u_s u_ncols u_pk] in *. subst nb pb. unfold ueq.
+  destruct o as [| n | pk | r | blocks rem]; cbn [uop_step fst snd u_s u_ncols u_pk].
+  - cbn. auto 10.
+  - auto 10.
+  - auto 10.
+  - unfold add_row. rewrite E2, E3, E1.
+    destruct (cell_too_long r); cbn [fst snd u_s u_ncols u_pk]; [auto 10|].
+    destruct (rs <=? s_size sb + row_size r)%N; cbn; auto 10.
+  - assert (Er : runs_of sort pa sa = runs_of sort pa sb) by (unfold runs_of; now rewrite E1, E2).
+    destruct blocks; cbn [fst snd u_s u_ncols u_pk drained s_chunks s_current s_size];
+      unfold sorted_blocks, sorted_rows; rewrite Er, E1, E3; auto 10.
+Qed.
+
+Lemma uop_run_ueq sort rs ops : forall a b,
+  ueq a b ->
+  ueq (fst (uop_run sort rs a ops)) (fst (uop_run sort rs b ops)) /\
+  snd (uop_run sort rs a ops) = snd (uop_run sort rs b ops).
+Proof.
+  induction ops as [|o ops IH]; intros a b E; cbn; [split; auto|].
+  destruct (uop_step_ueq sort rs a b o E) as [E' Eo].
+  destruct (uop_step sort rs a o) as [a' ra], (uop_step sort rs b o) as [b' rb]. cbn in E', Eo. subst rb.
+  destruct (IH a' b' E') as [E'' Er].
+  destruct (uop_run sort rs a' ops) as [a'' rsa], (uop_run sort rs b' ops) as [b'' rsb]. cbn in *.
+  subst rsb. split; auto.
+Qed.
+
+Lemma uop_run_app sort rs ops1 : forall u ops2,
+  uop_run sort rs u (ops1 ++ ops2) =
+  (fst (uop_run sort rs (fst (uop_run sort rs u ops1)) ops2),
+   snd (uop_run sort rs u ops1) ++ snd (uop_run sort rs (fst (uop_run sort rs u ops1)) ops2)).
+Proof.
+  induction ops1 as [|o ops1 IH]; intros u ops2; cbn.
+  - now destruct (uop_run sort rs u ops2).
+  - destruct (uop_step sort rs u o) as [u' r]. rewrite IH.
+    destruct (uop_run sort rs u' ops1) as [u'' rs1]. cbn.
+    destruct (uop_run sort rs u'' ops2) as [u3 rs2]. cbn.
+    destruct r; reflexivity.
+Qed.
+
+(** whatever the sorter did before, the three configuration steps of a use put it in the
+    state of a fresh sorter with that configuration *)
+Lemma use_prefix_fresh sort rs u n pk :
+  ueq (fst (uop_run sort rs u [UReset; USetColumns n; USetPK pk]))
+      (fst (uop_run sort rs new_usorter [UReset; USetColumns n; USetPK pk])).
+Proof. cbn. repeat split. Qed.
+
+Lemma use_prefix_outs sort rs u n pk :
+  snd (uop_run sort rs u [UReset; USetColumns n; USetPK pk]) = [].
+Proof. reflexivity. Qed.
+
+Lemma use_ops_split x :
+  use_ops x = [UReset; USetColumns (us_ncols x); USetPK (us_pk x)] ++
+              (map UAdd (us_rows x) ++ [UOut (us_blocks x) (us_rem x)]).
+Proof. reflexivity. Qed.
+
+Lemma use_outputs_fresh sort rs u x :
+  snd (uop_run sort rs u (use_ops x)) = snd (uop_run sort rs new_usorter (use_ops x)).
+Proof.
+  rewrite use_ops_split.
+  rewrite (uop_run_app sort rs [UReset; USetColumns (us_ncols x); USetPK (us_pk x)] u).
+  rewrite (uop_run_app sort rs [UReset; USetColumns (us_ncols x); USetPK (us_pk x)] new_usorter).
+  cbn [snd]. rewrite !use_prefix_outs. cbn [app].
+  apply uop_run_ueq. apply use_prefix_fresh.
+Qed.
+
+Theorem reuse_is_fresh sort rs uses : forall u,
+  snd (uop_run sort rs u (concat (map use_ops uses))) =
+  concat (map (fun x => snd (uop_run sort rs new_usorter (use_ops x))) uses).
+Proof.
+  induction uses as [|x uses IH]; intros u; cbn [map concat]; [reflexivity|].
+  rewrite uop_run_app. cbn [snd]. rewrite IH, use_outputs_fresh. reflexivity.
+Qed.
+
+(** a single use of a fresh sorter is AddRow for every row, then the output *)
+Lemma uadds_run sort rs rows : forall s n pk s',
+  add_rows sort rs pk s rows = Some s' ->
+  uop_run sort rs (mk_us s n pk) (map UAdd rows) = (mk_us s' n pk, map (fun _ => UOAdd true) rows).
+Proof.
+  induction rows as [|r rows IH]; intros s n pk s' H; cbn in *.
+  - inversion H; reflexivity.
+  - destruct (add_row sort rs pk s r) as [s1|] eqn:E; [|discriminate].
+    rewrite (IH s1 n pk s' H). reflexivity.
+Qed.
+
+Lemma fresh_use_run sort rs ncols pk rows blocks rem s :
+  add_rows sort rs pk new_sorter rows = Some s ->
+  snd (uop_run sort rs new_usorter (use_ops (mk_suse ncols pk rows blocks rem))) =
+  map (fun _ => UOAdd true) rows ++
+  match snd (uop_step sort rs (mk_us s ncols pk) (UOut blocks rem)) with Some o => [o] | None => [] end.
+Proof.
+  intros Ha. rewrite use_ops_split. cbn [us_ncols us_pk us_rows us_blocks us_rem].
+  rewrite (uop_run_app sort rs [UReset; USetColumns ncols; USetPK pk] new_usorter). cbn [snd].
+  rewrite use_prefix_outs. cbn [app].
+  change (fst (uop_run sort rs new_usorter [UReset; USetColumns ncols; USetPK pk])) with (mk_us new_sorter ncols pk).
+  rewrite (uop_run_app sort rs (map UAdd rows)), (uadds_run sort rs rows new_sorter ncols pk s Ha). cbn [fst snd].
+  f_equal. cbn [uop_run]. destruct (uop_step sort rs (mk_us s ncols pk) (UOut blocks rem)) as [u' [o|]]; reflexivity.
+Qed.
+
+Theorem fresh_use_blocks ncols sort rs pk rem rows :
+  sort_ok ncols sort -> wf_pk ncols pk -> wf_rows ncols rows -> cells_in_limit rows ->
+  wf_removed ncols pk rem ->
+  exists bs nch,
+    snd (uop_run sort rs new_usorter (use_ops (mk_suse ncols pk rows true rem))) =
+      map (fun _ => UOAdd true) rows ++ [UOBlocks nch (Some bs)] /\
+    sorted_dedup_of ncols pk rem rows (concat (map b_rows bs)).
+Proof.
+  intros Hso Hpk Hwf Hc Hrem.
+  destruct (sorter_blocks ncols sort rs pk rem rows Hso Hpk Hwf Hc Hrem) as (s & bs & Ha & Hb & Hspec).
+  exists bs, (length (s_chunks s)). split; [|exact Hspec].
+  rewrite (fresh_use_run sort rs ncols pk rows true rem s Ha). cbn [uop_step snd u_s u_ncols u_pk]. now rewrite Hb.
+Qed.
+
+Theorem fresh_use_rows ncols sort rs pk rem rows :
+  sort_ok ncols sort -> wf_pk ncols pk -> wf_rows ncols rows -> cells_in_limit rows ->
+  wf_removed ncols pk rem ->
+  exists bs nch,
+    snd (uop_run sort rs new_usorter (use_ops (mk_suse ncols pk rows false rem))) =
+      map (fun _ => UOAdd true) rows ++ [UORows nch (Some bs)] /\
+    sorted_dedup_of ncols pk rem rows (concat (map r_rows bs)).
+Proof.
+  intros Hso Hpk Hwf Hc Hrem.
+  destruct (sorter_rows ncols sort rs pk rem rows Hso Hpk Hwf Hc Hrem) as (s & bs & Ha & Hb & Hspec).
+  exists bs, (length (s_chunks s)). split; [|exact Hspec].
+  rewrite (fresh_use_run sort rs ncols pk rows false rem s Ha). cbn [uop_step snd u_s u_ncols u_pk]. now rewrite Hb.
+Qed.
